@@ -235,8 +235,10 @@ def exceptions(repo, res):
         ok = inside and len(h) == 1 and h[0].type is not None and norm(h[0].type) == "Exception" and is_raise_of(h[0].body[-1], "UnitParseError") and not t.orelse
     res.check(ok, "parse:catch-all", fn.where(), "parse_expr must run inside try/except Exception that raises UnitParseError", rid=r2)
     # the textual rewrites happen before parsing
-    rew = [norm(n.value) for n in fn.body if isinstance(n, ast.Assign) and ".replace(" in norm(n.value)]
-    res.check("unit_expr.replace('%', 'percent')" in rew and "unit_expr.replace('°', 'deg')" in rew, "parse:rewrites", fn.where(), "percent and degree signs are rewritten to names before parsing", found=rew, rid=r2)
+    from rules.c14 import rewrite_chain
+
+    rew, _final = rewrite_chain(fn)
+    res.check(("%", "percent") in rew and ("°", "deg") in rew, "parse:rewrites", fn.where(), "percent and degree signs are rewritten to names before parsing", found=rew, rid=r2)
     uo = repo.mod(UO)
     new = uo.func("Unit.__new__")
     res.fn(new)
